@@ -92,6 +92,9 @@ var paramTable = map[string]paramSpec{
 	}},
 	"NOTIFY=NEVER,SUCCESS": {text: "NOTIFY=NEVER,SUCCESS"},
 	"NOTIFY=junk":          {text: "NOTIFY=BAR"},
+	// notify-list = notify-list-element *( "," notify-list-element ): no empty elements
+	"NOTIFY=emptyelem":     {text: "NOTIFY=SUCCESS,,DELAY"},
+	"NOTIFY=trailingcomma": {text: "NOTIFY=FAILURE,"},
 	"ORCPT=rfc822": {text: "ORCPT=rfc822;a+2Bb@x.test", rcpt: func(o *smtp.RcptOptions) {
 		o.OriginalRecipientType, o.OriginalRecipient = smtp.DSNAddressTypeRFC822, "a+b@x.test"
 	}},
